@@ -276,7 +276,7 @@ def replay(doc):
 
 
 def jobs(tier, seed):
-    n, shards = (16000, 8) if tier == "quick" else (400000, 16)
+    n, shards = (16000, 8) if tier == "quick" else (1600000, 16)
     out = [{"name": "int-table", "kind": "int-table"}]
     for k in range(shards):
         out.append({"name": "random-%d" % k, "kind": "random", "n": n // shards,
